@@ -9,7 +9,7 @@ CONSTANTS
   RDelims <- MCRDelims
   MaxParts = 2
   MaxOps = 1
-  ContentSel = {1, 2, 3, 4, 5, 6, 7, 8, 9, 10, 11, 12}
+  ContentSel = {1, 2, 3, 4, 5, 6, 7, 9, 10, 12}
   ProfileSel = {1, 3}
   UseJson = TRUE
   BoundarySel = {1, 2}
